@@ -53,6 +53,8 @@ func init() {
 	extendProp("C07", "(R7.12) Initialize of the partition-style Deployment controller does not carry the stored strategy's paused flag into the strategy it writes; (R7.13) every store of status.observedWorkloadReplicas takes WorkloadInfo.Replicas, the value WorkloadInfo.IsScaling compares it with.", r7C07)
 	extendProp("C05", "(R5.16) all workload finders (CloneSet, DaemonSet, both Deployment forms, StatefulSet-like) set Workload.RevisionLabelKey on every path that returns the Workload of an existing object — also when the workload carries no in-progress marker, which is the state every finalising pass after the first one sees.", r7C05)
 	extendProp("C03", "(R3.13) calculateRolloutHash rebuilds the steps it hashes from a list that has not just been emptied (both strategies): a plan edit of the current step must change the hash, or the step's routing is never re-applied.", r7C03)
+	extendProp("C01", "(R1.13) who may write DeploymentStrategy.Paused: the workload webhook sets it, Initialize of the partition-style Deployment controller clears it, nothing reachable from UpgradeBatch touches it; (R1.14) the admission check that step replicas never decrease compares values scaled by GetScaledValueFromIntOrPercent (a percentage has no integer value).", r7C01)
+	extendProp("C10", "(R10.13) both Deployment finders compare the workload's template with the stable ReplicaSet's (the rollback test) on every path that returns a Workload marked InRolloutProgressing without an error.", r7C10)
 	extendProp("C08", "(R8.10) both admission handlers answer 'this workload is not selected by the webhook configuration' only after every entry and rule was examined (or the entry's selector cannot be parsed): the first entry whose rule matches does not decide alone.", r6C08)
 }
 
@@ -1659,5 +1661,165 @@ func r7C03(c *Ctx) {
 		}
 		c.Ob("R3.13", "calculateRolloutHash#steps-hashed("+strings.TrimPrefix(dst.String(), "&")+")", ci.Pos(), n > 0 && bad == "", "the steps copied into the hashed value come from a list that still holds them",
 			ifs(bad != "", bad+": editing the traffic or matches of the step a rollout is paused on is then not noticed, and the step keeps being reported as routed with the old value on the gateway")+ifs(n == 0, "source of the appended steps not recognised"))
+	}
+}
+
+// ---------------------------------------------------------------- C01 R1.13, R1.14 (round 7)
+
+func r7C01(c *Ctx) {
+	p := c.Prog
+	c.Rule("R1.13", "the advanced-Deployment strategy's paused flag is cleared only when a release is initialised", 2)
+	upg := p.Func("pkg/controller/batchrelease/control/partitionstyle/deployment.realController.UpgradeBatch")
+	if upg == nil {
+		c.Unresolved("R1.13", "partitionstyle/deployment.realController.UpgradeBatch")
+	}
+	fromUpgrade := map[*ssa.Function]bool{}
+	if upg != nil {
+		fromUpgrade = p.ReachableFrom(upg)
+		fromUpgrade[upg] = true
+	}
+	for _, st := range FieldStores(p.RepoFuncs(), "DeploymentStrategy", "Paused") {
+		if !strings.Contains(st.Addr.Type().String(), "bool") {
+			continue
+		}
+		fn := st.Parent()
+		name := FuncName(fn)
+		v, isC := StoredConst(st)
+		ok := true
+		why := ""
+		switch {
+		case strings.HasPrefix(name, "pkg/webhook/workload/mutating."):
+			// the webhook is the one that holds a release back
+			if isC && v == "false" {
+				ok, why = false, "the admission webhook un-pauses the strategy"
+			}
+		case fromUpgrade[fn]:
+			ok, why = false, "the batch step writes the paused flag: strategy.paused=true is the hold the webhook places on a revision published mid-release; clearing it together with a partition raise releases that revision at the old step's partition"
+		case isC && v == "true":
+			ok, why = false, "a controller pauses the strategy outside the webhook"
+		}
+		c.Ob("R1.13", name+"#strategy.paused="+ifs(isC, v)+ifs(!isC, "?"), st.Pos(), ok, "paused is set by the webhook and cleared by Initialize only", why)
+	}
+
+	c.Rule("R1.14", "the non-decreasing check of the step validator compares scaled values", 1)
+	vf := p.Func("pkg/webhook/rollout/validating.validateRolloutSpecCanarySteps")
+	if vf == nil {
+		c.Unresolved("R1.14", "validating.validateRolloutSpecCanarySteps")
+		return
+	}
+	// the comparison whose true edge rejects with the field named CanaryReplicas: both operands are
+	// results of GetScaledValueFromIntOrPercent (a percentage string has IntValue() == 0)
+	n := 0
+	bad := ""
+	for _, b := range vf.Blocks {
+		if len(b.Instrs) == 0 {
+			continue
+		}
+		iff, ok := b.Instrs[len(b.Instrs)-1].(*ssa.If)
+		if !ok {
+			continue
+		}
+		bo, ok := iff.Cond.(*ssa.BinOp)
+		if !ok || (bo.Op != token.LSS && bo.Op != token.GTR) {
+			continue
+		}
+		l, r := TermOf(bo.X), TermOf(bo.Y)
+		rep := func(t *Term) bool { return t.Any(MField("Replicas")) }
+		if !rep(l) || !rep(r) {
+			continue
+		}
+		n++
+		scaled := func(t *Term) bool {
+			return (t.Op == "extract" || t.Op == "call") && strings.Contains(t.Name, "GetScaledValueFromIntOrPercent")
+		}
+		if !scaled(l) || !scaled(r) {
+			bad = "the comparison at " + p.Pos(iff.Pos()) + " is between " + l.String() + " and " + r.String() + ", not between scaled values: for percentages the raw integer value is 0, so a decreasing percentage plan is admitted — the controllers never move the knob back, and the pods of the larger earlier step stay on the new revision while a smaller step is current"
+		}
+	}
+	c.Ob("R1.14", "validateRolloutSpecCanarySteps#non-decreasing-scaled", vf.Pos(), n > 0 && bad == "", "consecutive steps are compared by GetScaledValueFromIntOrPercent of their replicas", bad+ifs(n == 0, "comparison of consecutive steps' replicas not found"))
+}
+
+// ---------------------------------------------------------------- C10 R10.13 (round 7)
+
+func r7C10(c *Ctx) {
+	p := c.Prog
+	c.Rule("R10.13", "a Deployment reported as in progress has been tested for rollback", 2)
+	for _, name := range []string{"pkg/util.ControllerFinder.getDeployment", "pkg/util.ControllerFinder.getAdvancedDeployment"} {
+		fn := p.Func(name)
+		if fn == nil {
+			c.Unresolved("R10.13", name)
+			continue
+		}
+		// the rollback test: the branch that decides whether IsInRollback is set
+		testIfs := map[ssa.Instruction]bool{}
+		for _, st := range FieldStores([]*ssa.Function{fn}, "Workload", "IsInRollback") {
+			if v, ok := StoredConst(st); !ok || v != "true" {
+				continue
+			}
+			b := st.Block()
+			for i := 0; i < 4 && len(b.Preds) == 1; i++ {
+				pb := b.Preds[0]
+				if len(pb.Succs) == 2 {
+					testIfs[pb.Instrs[len(pb.Instrs)-1]] = true
+					// a && b: the earlier operands branch to the same join
+					join := pb.Succs[0]
+					if join == b {
+						join = pb.Succs[1]
+					}
+					for t := pb; len(t.Preds) == 1; {
+						q := t.Preds[0]
+						if len(q.Succs) != 2 || (q.Succs[0] != join && q.Succs[1] != join) {
+							break
+						}
+						testIfs[q.Instrs[len(q.Instrs)-1]] = true
+						t = q
+					}
+					break
+				}
+				b = pb
+			}
+		}
+		tested := func(in ssa.Instruction) bool { return testIfs[in] }
+		if len(testIfs) == 0 {
+			c.Ob("R10.13", shortName(name)+"#rollback-tested", fn.Pos(), false, "the branch that sets IsInRollback", "anchor not found")
+			continue
+		}
+		var marks []*ssa.Store
+		for _, st := range FieldStores([]*ssa.Function{fn}, "Workload", "InRolloutProgressing") {
+			if v, ok := StoredConst(st); ok && v == "true" {
+				marks = append(marks, st)
+			}
+		}
+		if len(marks) == 0 {
+			c.Ob("R10.13", shortName(name)+"#rollback-tested", fn.Pos(), false, "InRolloutProgressing = true", "anchor not found")
+			continue
+		}
+		okRet := func(in ssa.Instruction) bool {
+			ret, ok := in.(*ssa.Return)
+			if !ok || len(ret.Results) != 2 || ret.Block() == fn.Recover {
+				return false
+			}
+			// a return that may carry a nil error
+			for _, lf := range Leaves(Forwarded(ret.Results[1]), ret.Block()) {
+				if k, isC := lf.V.(*ssa.Const); isC && !k.IsNil() {
+					continue
+				}
+				vt := TermOf(lf.V).String()
+				if HasFact(append(append([]Fact{}, lf.Facts...), FactsFor(fn).At(ret.Block())...), FNotNil(func(t *Term) bool { return t.String() == vt })) {
+					continue
+				}
+				return true
+			}
+			return false
+		}
+		bad := ""
+		for _, mk := range marks {
+			before, _ := CanReach(Entry(fn), func(in ssa.Instruction) bool { return in == ssa.Instruction(mk) }, ReachOpts{CutInstr: tested})
+			after, at := CanReach(PointAfter(mk), okRet, ReachOpts{CutInstr: tested})
+			if before && after {
+				bad = "the Workload marked in progress at " + p.Pos(mk.Pos()) + " can be returned at " + p.Pos(posOf(at)) + " without the rollback test (the branch that sets IsInRollback) having been evaluated: a revert that lands before the canary Deployment exists or is scaled up is then taken for a new release — the rollout restarts from step one instead of cancelling"
+			}
+		}
+		c.Ob("R10.13", shortName(name)+"#rollback-tested", fn.Pos(), bad == "", "every in-progress Workload returned without error has passed the rollback test", bad)
 	}
 }
